@@ -21,6 +21,16 @@ class Ctx:
     def __init__(self, log=None):
         self.prog = Program(log=log)
         self.eff = Effects(self.prog)
+        try:
+            from .tables import Evaluator
+            from . import intervals
+            ev = Evaluator(self.prog)
+            intervals.ENUM_VALUES.clear()
+            for t, vals in getattr(ev, "enum_values", {}).items():
+                for v, name in vals.items():
+                    intervals.ENUM_VALUES["%s::%s" % (t.replace("coloquinte::", ""), name)] = v
+        except Exception:
+            pass
 
     def guards(self, func, node, asserts=False):
         """Branch conditions that edge-dominate the evaluation of AST node `node`
